@@ -99,6 +99,8 @@ func c52Scalar(rt *rapid.T, label string) (*big.Int, string) {
 		return big.NewInt(int64(3 + c52Uni(rt, label+".small", 60))), "k=small"
 	case 12:
 		return new(big.Int).Lsh(n, 1), "k=2n"
+	case 13, 14:
+		return new(big.Int).Set(c52EdgeScalars[c52Uni(rt, label+".edge", len(c52EdgeScalars))]), "k=edge"
 	default:
 		v := new(big.Int).SetBytes(gen.RandBytes(rt, label+".r", 32))
 		return v.Mod(v, n), "k=random<n"
@@ -106,6 +108,52 @@ func c52Scalar(rt *rapid.T, label string) (*big.Int, string) {
 }
 
 func c52ModN(k *big.Int) *big.Int { return new(big.Int).Mod(k, rc.BNN) }
+
+// c52EdgeScalars: scalars around every multiple and half of the group order and around powers of two,
+// plus the scalars whose double-and-add ladder reaches an accumulator equal to (or the negative of)
+// the base point: a prefix m with 2m = +-1 (mod n) followed by a 1 bit, i.e. c*n + 2 and c*n - ... for odd c,
+// also shifted further left with arbitrary low bits.
+var c52EdgeScalars = func() []*big.Int {
+	n := rc.BNN
+	var out []*big.Int
+	seen := map[string]bool{}
+	add := func(v *big.Int) {
+		if !seen[v.String()] {
+			seen[v.String()] = true
+			out = append(out, new(big.Int).Set(v))
+		}
+	}
+	around := func(c *big.Int, d int64) {
+		for i := -d; i <= d; i++ {
+			add(new(big.Int).Add(c, big.NewInt(i)))
+		}
+	}
+	around(big.NewInt(0), 2)
+	around(n, 4)
+	around(new(big.Int).Lsh(n, 1), 4)
+	around(new(big.Int).Mul(n, big.NewInt(3)), 4)
+	around(new(big.Int).Mul(n, big.NewInt(5)), 3)
+	around(new(big.Int).Rsh(n, 1), 3) // (n-1)/2 and neighbours, includes (n+1)/2
+	around(new(big.Int).Rsh(new(big.Int).Mul(n, big.NewInt(3)), 1), 2)
+	for _, k := range []uint{1, 2, 3, 31, 32, 63, 64, 65, 127, 128, 129, 192, 253, 254, 255, 256, 257, 300} {
+		around(new(big.Int).Lsh(big.NewInt(1), k), 1)
+	}
+	// ladder collisions, shifted: (c*n + 2) * 2^j + r and (c*n - 2) * 2^j + r
+	for _, c := range []int64{1, 3} {
+		for _, d := range []int64{2, -2} {
+			base := new(big.Int).Add(new(big.Int).Mul(n, big.NewInt(c)), big.NewInt(d))
+			for _, j := range []uint{1, 2, 7} {
+				sh := new(big.Int).Lsh(base, j)
+				add(sh)
+				add(new(big.Int).Add(sh, big.NewInt(1)))
+				add(new(big.Int).Add(sh, new(big.Int).Sub(new(big.Int).Lsh(big.NewInt(1), j), big.NewInt(1))))
+			}
+		}
+	}
+	add(new(big.Int).Neg(new(big.Int).Add(n, big.NewInt(2))))
+	add(new(big.Int).Neg(new(big.Int).Sub(n, big.NewInt(2))))
+	return out
+}()
 
 // c52Dest returns a destination element in one of several states: the
 // zero value, or an element that already holds some other value.
@@ -221,6 +269,34 @@ func (e *c52Env) caseG1(rt *rapid.T) {
 		if !bytes.Equal(sum.Marshal(), make([]byte, 64)) {
 			e.fail(rt, "[%v]G + (-[%v]G) is not the identity: %x", a, a, sum.Marshal())
 		}
+		// the same element reached by another route (never normalised by Marshal): P + (-P') = infinity
+		var other *bn256.G1
+		route := ""
+		switch c52Uni(rt, "route", 4) {
+		case 0:
+			other, _ = new(bn256.G1).Unmarshal(ma.Encode())
+			route = "unmarshal"
+		case 1:
+			x := c52ModN(b)
+			y := c52ModN(new(big.Int).Sub(a, x))
+			if x.Cmp(y) == 0 {
+				x.Add(x, big.NewInt(1))
+				y = c52ModN(new(big.Int).Sub(a, x))
+			}
+			other = new(bn256.G1).Add(new(bn256.G1).ScalarBaseMult(x), new(bn256.G1).ScalarBaseMult(y))
+			route = "x*G+y*G"
+		case 2:
+			other = new(bn256.G1).ScalarBaseMult(new(big.Int).Add(a, rc.BNN))
+			route = "(k+n)*G"
+		default:
+			other = new(bn256.G1).Neg(new(bn256.G1).Neg(new(bn256.G1).ScalarBaseMult(a)))
+			route = "neg-neg"
+		}
+		fresh := new(bn256.G1).ScalarBaseMult(a) // projective, never marshalled
+		if z := new(bn256.G1).Add(fresh, new(bn256.G1).Neg(other)); !bytes.Equal(z.Marshal(), make([]byte, 64)) {
+			e.fail(rt, "P + (-P') is not the identity for P = [%v]G and P' the same element via %s: %x", a, route, z.Marshal())
+		}
+		e.c.Class("g1:equal-element-route:" + route)
 	case 4: // associativity with pairwise distinct operands at every Add
 		cS, _ := c52Scalar(rt, "c")
 		if e.negGuard(cS) {
@@ -1083,6 +1159,52 @@ func TestC52(t *testing.T) {
 		cnt++
 	}
 	c.Exhaustive("boundary scalars x {G1, G2} ScalarBaseMult", len(bounds))
+	// every edge scalar through ScalarBaseMult and ScalarMult (projective base) in G1 and G2, and through
+	// GT.ScalarMult, against the model's [k mod n]
+	baseK := big.NewInt(7)
+	m7 := rc.G1Gen().Mul(baseK)
+	q7 := q.Mul(baseK)
+	for i, k := range c52EdgeScalars {
+		if !ev.Mine(i) {
+			continue
+		}
+		if k.Sign() < 0 && env.negKnown {
+			c.Excluded()
+			continue
+		}
+		bad := func(what string, got, want []byte) {
+			c.Violation(what, "")
+			t.Fatalf("VF-VIOLATION: property=C52 %s with k = %v: got %x, want %x (edge-scalar table)", what, k, got, want)
+		}
+		if got, want := new(bn256.G1).ScalarBaseMult(k).Marshal(), rc.G1Gen().Mul(k).Encode(); !bytes.Equal(got, want) {
+			bad("G1.ScalarBaseMult(k)", got, want)
+		}
+		p7 := new(bn256.G1).ScalarBaseMult(baseK) // projective, never marshalled
+		if got, want := new(bn256.G1).ScalarMult(p7, k).Marshal(), m7.Mul(k).Encode(); !bytes.Equal(got, want) {
+			bad("G1.ScalarMult([7]G, k)", got, want)
+		}
+		a7, _ := new(bn256.G1).Unmarshal(m7.Encode()) // affine base
+		if got, want := new(bn256.G1).ScalarMult(a7, k).Marshal(), m7.Mul(k).Encode(); !bytes.Equal(got, want) {
+			bad("G1.ScalarMult(Unmarshal([7]G), k)", got, want)
+		}
+		if got, want := new(bn256.G2).ScalarBaseMult(k).Marshal(), q.Mul(k).Encode(); !bytes.Equal(got, want) {
+			bad("G2.ScalarBaseMult(k)", got, want)
+		}
+		if i%2 == 0 || ev.Thorough() {
+			pq7 := new(bn256.G2).ScalarBaseMult(baseK)
+			if got, want := new(bn256.G2).ScalarMult(pq7, k).Marshal(), q7.Mul(k).Encode(); !bytes.Equal(got, want) {
+				bad("G2.ScalarMult([7]Q, k)", got, want)
+			}
+		}
+		if i%3 == 0 || ev.Thorough() {
+			e0 := env.base()
+			if got, want := new(bn256.GT).ScalarMult(e0, k).Marshal(), new(bn256.GT).ScalarMult(e0, c52ModN(k)).Marshal(); !bytes.Equal(got, want) {
+				bad("GT.ScalarMult(e(G,Q), k) vs k mod n", got[:32], want[:32])
+			}
+		}
+		c.Case(true, fmt.Sprintf("directed|edge-scalar|%d", i), "directed:edge-scalars")
+	}
+	c.Exhaustive("edge scalars (multiples and halves of n +-d, 2^k +-1, ladder-collision scalars c*n+-2 shifted) x G1/G2/GT scalar multiplication", len(c52EdgeScalars))
 	mults := ev.Scale(24, 400)
 	for k := 1; k <= mults; k++ {
 		if !ev.Mine(k) {
